@@ -5,6 +5,8 @@ import os
 
 ROOT = os.path.dirname(os.path.dirname(os.path.abspath(__file__)))
 TECH = 'machine-checked proof in Coq over a model regenerated from source + differential correspondence'
+TECH_PARTIAL = ('machine-checked proof in Coq of the part of the property that is logic (over code regenerated from source) + differential execution '
+                'of the compiled / concurrent part, which is searched, not proved')
 TECH_OTHER = 'dual-build differential execution + syntactic check that the regenerated Coq models do not depend on the std feature'
 NOTE = ('Trusted: Coq 8.16.1 kernel and vm_compute; translator tools/rs2v and the hand-written glue models (both cross-checked on '
         'every run by the correspondence against the real crate through harness/); usize = 64 bit; no axioms declared. ')
@@ -62,6 +64,19 @@ CLAIMS = {
             '--no-default-features build of the harness on the corpora of C01/C03/C06/C13-C15 (JIT from caller-supplied executable memory) and requiring '
             'identical transcripts.',
             'Helpers that exist only with std are outside the comparison.'),
+    'C03': ('proof', 'PARTIAL. The x86-64 machine code emitted by jit.rs and its execution are not modelled in Coq. Proved: the reference (interpreter) equals the ISA '
+            '(theorem C01); the register map is injective and avoids the scratch registers; on every accepted program each recorded jump / call target is an '
+            'instruction start inside the table resolve_jumps indexes (regenerated expressions). Searched, not proved: per-opcode emission, by executing compiled '
+            'code in a child process against the interpreter on a corpus of ~8000 programs built to cover every opcode x every destination/source register pair x '
+            'boundary immediates and displacements x control-flow shapes x program lengths above 65535 x 4 VM kinds (about 14000 runs), plus the C07 call graphs. '
+            'Known finding D18 (callee frame pointer) is listed for this property too.',
+            'Machine-code semantics outside the model: the deciding evidence for emission is differential execution, i.e. exploration.'),
+    'C04': ('proof', 'PARTIAL. Theorem C04_alu_arms: for each of the 50 ALU opcodes and all operand values the Cranelift IR built by translate_program (regenerated into Coq '
+            'on every run; value semantics of the IR in ClirSem.v, traps on zero divisors modelled) defines the destination register to exactly the ISA value, and never '
+            'traps. Control flow, memory arms (their bounds check is C11), helper calls and Cranelift code generation are not modelled: compiled code is executed '
+            'against the interpreter (= ISA by C01) on the same corpus as C03; programs with local calls must be refused (ERR) by compilation. This search found that '
+            'every 64-bit conditional jump was compiled as its 32-bit variant (fixed: 742bb11).',
+            'IR semantics hand-modelled; IR -> machine code trusted; non-ALU arms by differential execution.'),
     'C11': ('proof', 'Theorem C11_bounds_check: the IR that cranelift.rs builds in insert_bounds_check (regenerated into Coq on every run, over a value semantics of '
             'iconst/iadd/icmp/band/bor/trapz) lets execution continue iff the access [a, a+size), a = (base+offset) mod 2^64, does not wrap and lies entirely in the '
             'stack, the packet (when present) or the metadata buffer (when present) -- for every base, offset, width and region layout; C11_regions: the region '
@@ -126,7 +141,8 @@ def main():
                                 "evidence_file": "/verif/evidence/%s.json" % pid, "replay_cmd_template": "bin/check %s --replay {path}" % pid,
                                 "engine": "coq-proof+correspondence",
                                 "level_claimed": {"category": lvl, "text": text, "design_ref": "4 (%s)" % pid},
-                                "level_note": NOTE + extra, "technique": TECH_OTHER if lvl == 'other' else TECH})
+                                "level_note": NOTE + extra,
+                                "technique": TECH_OTHER if lvl == 'other' else (TECH_PARTIAL if 'PARTIAL' in text[:12] else TECH)})
         else:
             m['not_applicable'].append({"property_id": pid, "reason": PENDING})
     json.dump(m, open(os.path.join(ROOT, 'MANIFEST.json'), 'w'), indent=1)
